@@ -37,7 +37,7 @@ ASSUMPTIONS = [
 ]
 SETTINGS: Dict[str, Dict[str, Any]] = {
     "quick": {"cases": 1600, "cli_cases": 48, "budget_s": 45, "minimums": {"must_reject_runs": 800, "must_accept_runs": 1500, "with_n_negative_reported": 300, "nontrivial": 800, "cli_runs": 8, "runs_with_from_date": 1500, "same_instant_transfer_then_sale_cases": 100, "dust_then_real_overdraft_runs": 700, "cli_runs_with_in_fee_overdraft": 3, "unique_id_independence_pairs": 100}},
-    "thorough": {"cases": 60000, "cli_cases": 300, "budget_s": 300, "minimums": {"must_reject_runs": 30000, "must_accept_runs": 60000, "with_n_negative_reported": 10000, "nontrivial": 30000, "cli_runs": 150, "runs_with_from_date": 50000, "same_instant_transfer_then_sale_cases": 3000, "dust_then_real_overdraft_runs": 20000, "cli_runs_with_in_fee_overdraft": 15, "unique_id_independence_pairs": 1500}},
+    "thorough": {"cases": 60000, "cli_cases": 300, "budget_s": 300, "minimums": {"must_reject_runs": 18000, "must_accept_runs": 36000, "with_n_negative_reported": 6000, "nontrivial": 18000, "cli_runs": 90, "runs_with_from_date": 30000, "same_instant_transfer_then_sale_cases": 1800, "dust_then_real_overdraft_runs": 12000, "cli_runs_with_in_fee_overdraft": 9, "unique_id_independence_pairs": 900}},
 }
 PROFILES = [
     Profile(n_exchanges=2, n_holders=1, p_intra=0.25, tie_prob=0.3, max_events=16),
